@@ -189,37 +189,46 @@ theorem c15_unpack_pack (vs : List Nat) (hb : ∀ v ∈ vs, v < W) :
   · rw [List.getElem?_eq_none (by simpa using Nat.le_of_not_lt hk),
         List.getElem?_eq_none (by simpa using Nat.le_of_not_lt hk)]
 
-/-- P: delta + bit-packing round-trips on sorted `u64` input **except** the singleton `[0]`
-(hypothesis `vs ≠ [0]`). -/
-theorem c15_delta_bitpacked_roundtrip_partial (vs : List Nat) (hs : Sorted vs)
-    (hb : ∀ v ∈ vs, v < W) (hz : vs ≠ [0]) :
-    (DBP.encode vs).decode = .ok vs := by
+/-- F: delta + bit-packing round-trips on every sorted `u64` sequence (the repaired code: a single
+value records the width 1, so `[0]` is no longer taken for the empty sequence). -/
+theorem c15_delta_bitpacked_roundtrip (vs : List Nat) (hs : Sorted vs)
+    (hb : ∀ v ∈ vs, v < W) :
+    (DBP.encode vs).decode = .ok vs ∧ (DBP.encode vs).len = vs.length := by
   cases vs with
-  | nil => rfl
+  | nil => exact ⟨rfl, rfl⟩
   | cons a t =>
     have hd : ∀ w ∈ satDeltas (a :: t), w < W := satDeltas_lt _ hb
-    have hcount : (pack (satDeltas (a :: t))).count = t.length := by
-      rw [pack_count, satDeltas_length]; simp
-    have henc : DBP.encode (a :: t) = ⟨a, pack (satDeltas (a :: t))⟩ := rfl
-    rw [henc]
-    unfold DBP.decode
-    split
-    · rename_i hc
-      simp only [hcount, Bool.and_eq_true, decide_eq_true_eq] at hc
-      obtain ⟨h1, h2⟩ := hc
-      have : t = [] := List.length_eq_zero_iff.mp h1
-      subst this; subst h2
-      exact absurd rfl hz
-    · simp only
-      rw [c15_unpack_pack _ hd]
-      simp only [wrapSums_satDeltas a t hs hb]
+    cases t with
+    | nil =>
+      have henc : DBP.encode [a] = ⟨a, packWithBits [] 1⟩ := rfl
+      rw [henc]
+      exact ⟨by simp [DBP.decode, DBP.isEmpty, packWithBits, Packed.unpack, wrapSums],
+             by simp [DBP.len, DBP.isEmpty, packWithBits]⟩
+    | cons b r =>
+      have hne : satDeltas (a :: b :: r) ≠ [] := by simp [satDeltas]
+      have henc : DBP.encode (a :: b :: r) = ⟨a, pack (satDeltas (a :: b :: r))⟩ := by
+        simp only [DBP.encode, if_neg hne]
+      have hcount : (pack (satDeltas (a :: b :: r))).count = r.length + 1 := by
+        rw [pack_count, satDeltas_length]; simp
+      rw [henc]
+      refine ⟨?_, ?_⟩
+      · unfold DBP.decode DBP.isEmpty
+        simp only [hcount]
+        rw [if_neg (by simp)]
+        rw [c15_unpack_pack _ hd]
+        simp only [wrapSums_satDeltas a (b :: r) hs hb]
+      · unfold DBP.len DBP.isEmpty
+        simp only [hcount]
+        rw [if_neg (by simp)]
+        simp
 
-/-- W: the excluded input. `DeltaBitPacked::encode(&[0]).decode()` is `[]`, and its length
-is reported as 0 (known finding `C15-dbp-zero-singleton`). -/
+/-- W (regression): before the repair `DeltaBitPacked::encode(&[0]).decode()` was `[]`, with length 0
+(finding `C15-dbp-zero-singleton`). -/
 theorem c15_delta_bitpacked_zero_singleton_witness :
-    (DBP.encode [0]).decode = .ok [] ∧ (DBP.encode [0]).len = 0 := by decide
+    Old.DBP.decode (Old.DBP.encode [0]) = .ok [] ∧ Old.DBP.len (Old.DBP.encode [0]) = 0 ∧
+    (DBP.encode [0]).decode = .ok [0] := by decide
 
-/-- N: non-vacuity of the partial theorem. -/
+/-- N -/
 example : (DBP.encode [5, 5, 9, 1000]).decode = .ok [5, 5, 9, 1000] := by decide
 
 /-- F: run-length encoding round-trips for every sequence. -/
